@@ -148,10 +148,10 @@ def r6_reply_peer(ctx):
         return
     sts = []
     for bi, line, base, v, place in stores_through(body, o):
-        if isinstance(base, tuple) and base[0] == "var" and len(base) > 2:
-            ty = body.lty(base[2])
-            if ty.get("adt") == "tokio::sync::MutexGuard" and "SocketAddr" in ty["args"][0]["s"]:
-                sts.append((bi, line, v))
+        named_guard = isinstance(base, tuple) and base[0] == "var" and len(base) > 2 and body.lty(base[2]).get("adt") == "tokio::sync::MutexGuard" and "SocketAddr" in body.lty(base[2])["args"][0]["s"]
+        temp_guard = any(is_call_term(s, "Mutex::<T>::lock") for s in subterms(base)) and isinstance(v, tuple) and v[0] == "agg" and v[2] in ("Some", "None")
+        if named_guard or temp_guard:
+            sts.append((bi, line, v))
     if not sts:
         ctx.ob("R15.6", "udp_to_stream:remembers-sender", False, "", "the sender of a forwarded datagram is never stored: replies cannot be delivered")
         return
